@@ -65,6 +65,18 @@ CHECKS = {
             'blocks), saves that fail loudly (bytes with NUL, classes with __slots__) are not failures of the round trip; cache '
             'attributes (_mps_sites_cache, _BZ, _reciprocal_basis, UniformMPS._S) are compared through observables instead',
             'DESIGN.md §C17'),
+    'C18': ('exploration', 'SIGKILL fault injection with strace at the entry of every file-system call on the output and backup file '
+            '(child processes running real Simulations), loader-based classification of the files left behind against the recorded '
+            'checkpoints of an uninterrupted run; offline comparison of resumed and uninterrupted histories',
+            'Ground-state searches (two-site DMRG, single-site DMRG with mixer) and real-time evolutions (TEBD, two-site TDVP, '
+            'ExpMPOEvolution) with pickle and HDF5 output, safe_write on and a save at every checkpoint: (1) the run is killed at the '
+            'k-th openat / write / pwrite64 / rename / unlink / close ... touching the two files (all occurrences; an even sample of '
+            'the ~1300 HDF5 data writes) and a complete results file of the last completed or the current checkpoint must remain; '
+            '(2) the run is resumed from every recorded checkpoint and must end with the same final state, energy, measurement '
+            'history (none lost, none duplicated) and a sweep history that is the exact tail of the uninterrupted one; (3) from the '
+            'file set a first crash leaves, the resumed run is killed at every file-system call of its first save.',
+            'process death = SIGKILL at system-call entry (page-cache contents survive; power loss is out of reach); a checkpoint is '
+            'identified by the deterministic part of the results', 'DESIGN.md §C18'),
     'C12': ('exploration', 'dense operator identities evaluated on every configuration of the (finite, exhaustively enumerated) '
             'site-option grid; kron/JW reference for grouped sites; explicit Jordan-Wigner matrices for many-body CAR',
             'Every site class x parameters x conserve option x sort_charge: operators mapped through perm equal the textbook '
